@@ -305,7 +305,7 @@ func checkC15(r *core.Run) {
 	r.Set("layer_field_pairs", fmt.Sprintf("%d field pairs x %d^2 values: %d", len(fps), len(vals), pairs))
 	// (d) list fields
 	lclass := append([]string{}, class...)
-	lclass = append(lclass, "javascript:alert(1)", "\"", "a b", "\\22", "\xff", " ", "\x7f", "\xc2\x85")
+	lclass = append(lclass, "javascript:alert(1)", "\"", "a b", "\\22", "\xff", " ", "\x7f", "\xc2\x85", "%", "%s", "%20", "%[", "%!", "%d")
 	var l1 []string
 	l1 = append(l1, "")
 	for _, a := range lclass {
